@@ -121,6 +121,10 @@ class World:
         self.not_settled = 0
         self.reset_pending = False
         self.reset_wait: set = set()
+        self.srv_cw = None
+        self.server_speed = 204800          # on record at the server: fast enough for every limit in play
+        self.bystander = None
+        self.file_paths: dict = {}
         # concrete name -> model id
         self.ids = {v: k for k, v in self.names.items()}
         self.ids.update({v: k for k, v in self.rootnames.items()})
@@ -152,9 +156,11 @@ class World:
         self.M = M
         self.net = SimNet(self.loop).install()
         self.net.policy = self._policy
+        self.net.on_link = self._on_link
         self.srv = ScriptedServer(self.net)
         self.srv.on_frame = self._on_srv_frame
         self.srv.handlers[M.ConnectToPeer.Request] = self._h_connect_to_peer
+        self.srv.handlers[M.GetUserStats.Request] = self._h_get_user_stats
         await self.srv.start()
         for i, (pid, name) in enumerate(sorted(self.names.items())):
             ps = PeerSim(pid, name, PEER_PORT0 + i, f'10.0.0.{i + 1}')
@@ -213,13 +219,28 @@ class World:
             for d in self.share['dirs']:
                 for rel in d['files']:
                     files.append(dict(name=rel.split('/')[-1], words=words_of(rel), mode=d['mode']))
+                    self.file_paths[rel.split('/')[-1]] = rel.replace('/', '\\')
         return dict(ev='init', peers=sorted(self.names), files=files,
                     friends=sorted(self.share.get('friends', [])) if self.share else [])
+
+    def _on_link(self, link):
+        # the client's end of its (latest) server connection gets the FIFO back-pressure gate as well
+        if link.addr[1][1] == self.srv.port:
+            self.srv_cw = _pausable(link.writers[0], self.loop)
 
     # ------------------------------------------------------------------ scripted server side
     def _h_connect_to_peer(self, srv, sess, msg):
         # nobody can be reached indirectly in this world: the attempt fails at once
         return [self.M.CannotConnect.Response(msg.ticket)]
+
+    def _h_get_user_stats(self, srv, sess, msg):
+        """Like the real server: a request for the statistics of the own user is answered with the
+        average speed the server has on record (the one it last reported)."""
+        from aioslsk.protocol.primitives import UserStats
+        if msg.username != self.me:
+            return None
+        self.rec(ev='ustats', speed=int(self.server_speed), who='me')
+        return [self.M.GetUserStats.Response(self.me, UserStats(int(self.server_speed), 0, 0, 0))]
 
     def _on_srv_frame(self, sess, msg):
         M = self.M
@@ -314,14 +335,61 @@ class World:
 
     # ------------------------------------------------------------------ stimuli
     async def do(self, stim: tuple):
-        """Apply one stimulus, let the loop drain, take a snapshot."""
-        kind = stim[0]
-        fn = getattr(self, 's_' + kind)
-        res = fn(*stim[1:])            # raises Infeasible before anything is recorded or sent
-        if asyncio.iscoroutine(res):
-            await res
+        """Apply one stimulus, let the loop drain, take a snapshot.  ('burst', s1, s2, ...) applies
+        several stimuli in the same loop slot - their bytes / EOFs are handed to the loop back to
+        back, in this order - before the loop runs."""
+        group = list(stim[1:]) if stim[0] == 'burst' else [stim]
+        for n, st in enumerate(group):
+            fn = getattr(self, 's_' + st[0])
+            try:
+                res = fn(*st[1:])        # raises Infeasible before anything is recorded or sent
+                if asyncio.iscoroutine(res):
+                    await res
+            except Infeasible:
+                if n == 0:
+                    raise
+                break                    # the first part happened: judge it
         await self.settle()
         self.snap()
+
+    async def s_bystander(self):
+        """A peer that has nothing to do with the tree opens an ordinary peer connection to us."""
+        if self.bystander is not None and self.bystander.link.open:
+            raise Infeasible('bystander already connected')
+        self.rec(ev='bystander')
+        ep = await self.net.dial(CLIENT_PORT)
+        ep.send_message(self.M.PeerInit.Request('bystander of ' + self.me, 'P', 0))
+        self.bystander = ep
+
+    def s_bygone(self):
+        if self.bystander is None or not self.bystander.link.open:
+            raise Infeasible('no bystander')
+        self.rec(ev='bygone')
+        self.bystander.close()
+
+    def s_closeother(self, pid, mode='eof'):
+        """close(pid), but only for a peer that is neither parent nor child at the moment (used in
+        bursts: the closing connection must be unrelated to the request being passed on)."""
+        ps = self._need_open(pid)
+        dn = self.dn
+        if (dn.parent is not None and dn.parent.username == ps.name) or any(c.username == ps.name for c in dn.children):
+            raise Infeasible('not an unrelated peer')
+        self.s_close(pid, mode)
+
+    def s_closeifopen(self, pid, mode='eof'):
+        ps = self.peers[pid]
+        if ps.ep is not None and ps.ep.link.open:
+            self.s_close(pid, mode)
+
+    def s_xphr(self, phrases):
+        """ExcludedSearchPhrases from the server.  The record names the shared files whose path (below the
+        shared directory, backslash separated) contains one of the phrases literally, ignoring case."""
+        self._need_session()
+        phrases = list(phrases)
+        low = [ph.lower() for ph in phrases]
+        xfiles = sorted(n for n, path in self.file_paths.items() if any(ph in path.lower() for ph in low))
+        self.rec(ev='xphr', phrases=phrases, xfiles=xfiles)
+        self.session.send(self.M.ExcludedSearchPhrases.Response(phrases))
 
     def s_pp(self, S):
         M = self.M
@@ -408,10 +476,27 @@ class World:
         if ps.cw is not None:
             ps.cw.resume()
 
+    def s_srvpause(self):
+        """The server connection stops draining: every send of the client to the server suspends in
+        drain() (the bytes are on their way; FIFO wake-up of all waiters at `srvresume`)."""
+        self._need_session()
+        if self.srv_cw is None or self.srv_cw.paused:
+            raise Infeasible('server link already paused')
+        self.rec(ev='srvpause')
+        self.srv_cw.paused = True
+
+    def s_srvresume(self):
+        if self.srv_cw is None or not self.srv_cw.paused:
+            raise Infeasible('server link not paused')
+        self.rec(ev='srvresume')
+        self.srv_cw.resume()
+
     def s_ustats(self, speed, who='me'):
         from aioslsk.protocol.primitives import UserStats
         self._need_session()
         self.rec(ev='ustats', speed=int(speed), who=who)
+        if who == 'me':
+            self.server_speed = int(speed)
         name = self.me if who == 'me' else 'somebody else'
         self.session.send(self.M.GetUserStats.Response(name, UserStats(int(speed), 0, 0, 0)))
 
@@ -422,6 +507,9 @@ class World:
         processed at an unknown later time and the trace spec could not tell when its effect begins."""
         if self.session is None or self.client.session is None:
             raise Infeasible('no session')
+        if self.srv_cw is not None and self.srv_cw.paused:
+            # a handler of the server reader may be waiting in a send to the server: same reason as below
+            raise Infeasible('server link back-pressured')
         if self.reset_pending:
             # reset() closes the children, then the parent: it is over once none of their links is left
             # (or, whatever else happened, once the world is quiescent again)
@@ -483,6 +571,8 @@ class World:
 
     # ------------------------------------------------------------------ gates
     def release_all(self):
+        if self.srv_cw is not None:
+            self.srv_cw.resume()
         for ps in self.peers.values():
             if ps.cw is not None:
                 ps.cw.release_wait_closed()
@@ -522,6 +612,8 @@ class World:
         return 'none'
 
     def busy(self) -> bool:
+        if self.srv_cw is not None and self.srv_cw.blocked():
+            return True
         for ps in self.peers.values():
             if ps.cw is None:
                 continue
